@@ -375,19 +375,22 @@ def gate_stage(rep, rs, tier):
     nprog = 150 if tier == "quick" else 6000
     progs = [gen_program(rs) for _ in range(nprog)]
     runs = [run_program(p, probe=invalid_probe) for p in progs]
-    body = ["From Coq Require Import List.", "From DV Require Import Model.Gate.", "Import ListNotations."]
-    body.append("Eval vm_compute in (concat (map (fun l => 9 :: run_gate l) [" +
-                ";\n ".join("[" + "; ".join(program_tokens(p)) + "]" for p in progs) + "])).")
-    (name, rc, ints, raw), = C.run_case_files(PID, [("gate_0", "\n".join(body))])
-    if rc != 0 or ints is None:
-        rep.obligation(False); rep.violation(dict(kind="correspondence-shard-failed", shard=name, log=raw), False); return
-    rep.obligation(True)
+    hdr = ["From Coq Require Import List.", "From DV Require Import Model.Gate.", "Import ListNotations."]
+    files = []; CH = 300          # big list literals are slow to parse: shard
+    for s0 in range(0, len(progs), CH):
+        files.append((f"gate_{s0 // CH}", "\n".join(hdr + [
+            "Eval vm_compute in (concat (map (fun l => 9 :: run_gate l) [" +
+            ";\n ".join("[" + "; ".join(program_tokens(p)) + "]" for p in progs[s0:s0 + CH]) + "]))."])))
     groups = []
-    for z in ints:
-        if z == 9:
-            groups.append([])
-        else:
-            groups[-1].append(z)
+    for (name, rc, ints, raw) in C.run_case_files(PID, files):
+        if rc != 0 or ints is None:
+            rep.obligation(False); rep.violation(dict(kind="correspondence-shard-failed", shard=name, log=raw), False); return
+        rep.obligation(True)
+        for z in ints:
+            if z == 9:
+                groups.append([])
+            else:
+                groups[-1].append(z)
     nq = 0; bad = 0
     for p, (seen, probe), want in zip(progs, runs, groups):
         nq += len(want)
